@@ -139,7 +139,7 @@ func initAllowed(path string) bool {
 		"encoding/binary", "context", "path", "path/filepath", "os", "cmp", "maps", "iter",
 		"container/heap", "container/list", "encoding/hex", "encoding/base64",
 		"internal/bytealg", "internal/byteorder", "internal/itoa", "internal/stringslite",
-		"hash", "fmt", "internal/fmtsort", "net",
+		"hash", "fmt", "internal/fmtsort", "net", "flag",
 		"github.com/gopacket/gopacket/layers", "github.com/gopacket/gopacket":
 		return true
 	}
@@ -373,6 +373,7 @@ func (i *interpreter) runPath(h *ssa.Function, prefix []int64, cfg *HarnessCfg, 
 		p.initPhase = true
 		call(i, root, token.NoPos, h.Pkg.Func("init"), nil)
 		p.initPhase = false
+		p.panicSite, p.panicLive = "", false
 		p.instrCount = 0
 		p.repoInstr = 0
 		call(i, root, token.NoPos, h, nil)
